@@ -310,6 +310,9 @@ def apply_model(sym, n, f, vals, mut_idx, st):
         return V(lin_norm([(vals[0], 1), (vals[1], -1)]))
     if re.match(r"^core::num::<impl [ui]\w+>::checked_(add|sub)$", raw):
         sign = 1 if raw.endswith("add") else -1
+        if sign == -1 and re.match(r"^core::num::<impl u\w+>::", raw):
+            # unsigned a.checked_sub(b) is Some exactly when !(a < b) (sym.simplify_atom)
+            return V(("checked", lin_norm([(vals[0], 1), (vals[1], sign)]), "u-", vals[0], vals[1]))
         return V(("checked", lin_norm([(vals[0], 1), (vals[1], sign)])))
 
     # ---- the last piece of a split, taken from either end ------------------------------------------------------------------------
